@@ -6,7 +6,7 @@ code on a gate with symbolic parameters placed on non-ascending qubits, and the 
 is proved by Base/TrigMat.mcheck_phase_sound.  Multi-controlled X: see Model/MCX.v (boolean
 reversible-circuit model, proved for every number of controls) + structural correspondence.
 """
-STATIC = ["Base/TrigMat"]
+STATIC = ["Base/TrigMat", "C08/Reversible"]
 import random
 
 import numpy as np
@@ -71,6 +71,82 @@ def mcx_items(tier):
     return items
 
 
+def mcx_boolean(run, rng):
+    """X(t).controlled_by(m controls).decompose(*free, use_toffolis=True): the returned X/CNOT/TOFFOLI
+    list is evaluated as a reversible boolean circuit in Coq on ALL 2^n basis states (checker proved
+    sound in C08/Reversible.v): flips the target iff all controls are 1, restores every work bit."""
+    gg = qtrace.mod("qibo.gates.gates")
+    header = ("From Coq Require Import List Bool Arith.\nFrom QV Require Import Base.Mat C08.Reversible.\n"
+              "Import ListNotations.\n")
+    items, meta = [], {}
+    nmax = 9 if run.tier == "quick" else 11
+    for m in range(3, 9):
+        for nf in range(1, 8):
+            n = m + 1 + nf
+            if n > nmax:
+                continue
+            perm = list(range(n))
+            rng.shuffle(perm)
+            cs, t, free = perm[:m], perm[m], perm[m + 1:]
+            name = f"mcxbool_m{m}_f{nf}"
+            try:
+                dec = gg.X(t).controlled_by(*cs).decompose(*free, use_toffolis=True)
+            except Exception as e:
+                run.refuted.append(name)
+                run.find(f"mcx_raises:{m}:{nf}", f"X.decompose with {m} controls and {nf} free qubits raises {type(e).__name__}: {e}",
+                         {"controls": cs, "target": t, "free": free})
+                continue
+            bad = [type(g).__name__ for g in dec if type(g).__name__ not in ("X", "CNOT", "TOFFOLI")]
+            if bad:
+                run.refuted.append(name)
+                run.find(f"mcx_gateset:{m}:{nf}", f"decomposition contains {sorted(set(bad))}", {"controls": cs, "free": free})
+                continue
+            gl = "[" + "; ".join(f"({qtrace.nat_list(g.control_qubits)}, {g.target_qubits[0]}%nat)" for g in dec) + "]"
+            items.append((name, f"mcx_check {n}%nat {qtrace.nat_list(sorted(cs))} {t}%nat {gl}"))
+            meta[name] = {"controls": cs, "target": t, "free": free, "ngates": len(dec)}
+            run.case(["mcxbool", m, nf, cs, t, free])
+            run.sample({"obligation": name, **meta[name]})
+    res, out = run.coq_bools("C08_mcxbool_triage.v", header, items, timeout=900)
+    if res is None:
+        run.find("coq:C08_mcxbool", "boolean MCX obligations do not compile", {"log": out[-1200:]}, concrete=False)
+        return
+    good = [(n_, t_) for n_, t_ in items if res[n_]]
+    thms = [(f"ok_{n_}", f"{t_} = true", "vm_compute; reflexivity.") for n_, t_ in good]
+    ok, out2 = run.coq_theorems("C08_mcxbool_theorems.v", header, thms, timeout=900) if thms else (True, "")
+    for n_, _ in good:
+        run.oblige(n_, ok, "mcx-boolean")
+    for n_, _ in items:
+        if not res[n_]:
+            mt = meta[n_]
+            w = mcx_witness(mt)
+            run.refuted.append(n_)
+            run.find(f"mcx:{len(mt['controls'])}:{len(mt['free'])}:True",
+                     "multi-controlled X decomposition is not the multi-controlled X (or disturbs a work qubit)", {**mt, **w})
+
+
+def mcx_witness(mt):
+    """a basis state on which the real decomposition (simulated by the real backend) is wrong"""
+    from qibo import Circuit
+    gg = qtrace.mod("qibo.gates.gates")
+    cs, t, free = mt["controls"], mt["target"], mt["free"]
+    n = len(cs) + 1 + len(free)
+    dec = gg.X(t).controlled_by(*cs).decompose(*free, use_toffolis=True)
+    import itertools
+    for bits in itertools.product([0, 1], repeat=n):
+        c = Circuit(n)
+        for q, b in enumerate(bits):
+            if b:
+                c.add(gg.X(q))
+        c.add(dec)
+        out = int(np.argmax(np.abs(np.asarray(c().state()))))
+        want = list(bits)
+        if all(bits[q] for q in cs):
+            want[t] ^= 1
+        if out != int("".join(map(str, want)), 2):
+            return {"input_bits": list(bits), "output_index": out, "expected_bits": want}
+    return {}
+
+
 def circuit_items(tier):
     from qibo import Circuit
     gg = qtrace.mod("qibo.gates.gates")
@@ -100,6 +176,7 @@ def main(run):
     run.assumptions += ["exact real arithmetic (rounding not modelled)"]
     tables.run_items(run, table_items(run.tier), "C08_tables", rng)
     tables.run_items(run, mcx_items(run.tier), "C08_mcx", rng)
+    mcx_boolean(run, rng)
     tables.run_items(run, circuit_items(run.tier), "C08_circuit", rng)
     return run.finish(rule=RULE)
 
